@@ -21,7 +21,8 @@ import random
 from . import common
 from .helpers11 import (UserValue, make_model, machine_bound, outcome, err_code, enc_name, Cursor)
 
-SEGS = ['A', 'B', 'C', 'P', 'Q', 'a', 'b', 'c', '1', '2', 'x1']
+# names that are string prefixes of one another (A/AB, 1/12, x/x1, P/Pa) on one level and across levels
+SEGS = ['A', 'B', 'C', 'P', 'Q', 'a', 'b', 'c', '1', '2', 'x1', 'AB', '12', 'x', 'Pa']
 ROOT_EVENTS = ['go', 'run', 'stop']
 LOCAL_EVENTS = ['mid', 'inner', 'go', 'run']      # 'go' / 'run' also live in the root scope: one trigger, several scopes
 
@@ -41,6 +42,7 @@ class HKnobs(object):
         self.p_embed = 0.5        # a compound state's children come from an embedded HierarchicalMachine (own auto flag)
         self.p_object = 0.3        # a compound state arrives as a pre-built NestedState object owning its substates
         self.p_remove = 0.12       # remove_transition steps (a trigger may live in several scopes; often only part goes)
+        self.p_failing = 0.1       # failing reconfiguration calls followed by the corrected call
         self.p_enum = 0.0          # states given as nested Enum classes (member names shared between levels)
         self.__dict__.update(kw)
 
@@ -165,6 +167,20 @@ def gen_case(rng, kn):
         added.append(0)
     live = [list(p) for p in paths]
     for _ in range(rng.randint(2, kn.max_steps)):
+        if rng.random() < kn.p_failing:
+            k = rng.random()
+            cands = [x for x in range(n_models) if x not in added]
+            if k < 0.35 and cands:
+                ops.append(['model_bad', cands[0]])         # add_model(model, initial=<unknown state>): ValueError
+                ops.append(['model', cands[0]])
+                added.append(cands[0])
+            elif k < 0.55 and cands:
+                ops.append(['unmodel_bad', cands[0]])       # remove_model(<unregistered model>): ValueError
+            elif k < 0.8 and not is_enum:
+                ops.append(['state_dup', rng.choice(live)])   # add_states(<existing state>): ValueError
+            else:
+                ops.append(['trans_attr', rng.choice(live)])  # add_transition(<model_attribute>, …): ValueError
+            continue
         if rng.random() < kn.p_remove:
             e = rng.choice(ROOT_EVENTS + LOCAL_EVENTS)
             src = rng.choice(live) if rng.random() < 0.55 else None
@@ -333,6 +349,14 @@ class HRun(object):
             elif k == 'local':
                 _k, scope, e, src, dst = op
                 self.local_add(m, scope, e, self.sep.join(src), self.sep.join(dst))
+            elif k == 'model_bad':
+                m.add_model(self.objs[op[1]], initial='nowhere')
+            elif k == 'unmodel_bad':
+                m.remove_model(self.objs[op[1]])
+            elif k == 'state_dup':
+                m.add_states(self.sep.join(op[1]))
+            elif k == 'trans_attr':
+                m.add_transition(self.attr, self.sep.join(op[1]), self.sep.join(op[1]))
             elif k == 'remove':
                 _k, e, src, dst = op
                 m.remove_transition(e, source='*' if src is None else self.sep.join(src),
@@ -575,6 +599,28 @@ def check_step(run, last_op, pending):
             if exact != ('ret', exp_exact) or sub != ('ret', exp_sub):
                 bad('monitor', 'is-helper-wrong', model=i, path=p, exact=exact, with_substates=sub, active=act)
             ob['is'] = [exact, sub]
+        # -- … and in EVERY configuration (the twin is put into every state): exactly the state and its ancestors
+        #    answer True with allow_substates, exactly the state itself without
+        if pos == 0:
+            for src in (qpaths if len(qpaths) <= 14 else qpaths[:14]):
+                twin_m.set_state(sep.join(src), twin)
+                for p in qpaths:
+                    names = is_access(sep, p)
+                    if names[0] not in judged:
+                        continue
+                    f = access(twin, names)
+                    if f is None:
+                        continue
+                    got = (outcome(f), outcome(f, True))
+                    exp = (('ret', p == src), ('ret', src[:len(p)] == p))
+                    if got != exp:
+                        bad('monitor', 'is-helper-wrong-in-some-configuration', model=i, configuration=src, helper=p,
+                            exact=got[0], with_substates=got[1])
+                        break
+                else:
+                    continue
+                break
+            setattr(twin, attr, copy.deepcopy(cur))
         # -- event method == trigger(name) --------------------------------------------------------
         trig_ok = 'trigger' in judged
         for e in events:
@@ -833,7 +879,20 @@ def run_case(case):
         if op[0] == 'model' and case['sep'] != '_' and op[1] not in run.registered:
             wsteps = wrapper_steps(run.machine, case['sep'])
             wreq = enc_wrap_request(case['override'], run.objs[op[1]], wsteps)
+        members = [id(x) for x in run.machine.models]
+        shape = [(tuple(pre), [(e, len(srcs)) for e, srcs in evs]) for pre, evs in scope_tables(run.machine, case['sep'])]
         r = run.do(op)
+        if op[0] in ('model_bad', 'unmodel_bad', 'state_dup', 'trans_attr'):
+            # a call that must fail: ValueError, registration and tables as they were; the clauses are judged below
+            now = [(tuple(pre), [(e, len(srcs)) for e, srcs in evs]) for pre, evs in scope_tables(run.machine, case['sep'])]
+            if r[0] != 'raised' or r[1] != 'ValueError':
+                fails.append(('monitor', 'invalid-call-accepted', {'step': k, 'op': op, 'outcome': r}, 'C11.nested.invalid-call-accepted'))
+                break
+            if members != [id(x) for x in run.machine.models] or now != shape:
+                fails.append(('monitor', 'failed-call-changed-the-machine', {'step': k, 'op': op, 'models_before': len(members),
+                                                                             'models_after': len(run.machine.models)},
+                              'C11.nested.failed-call-changed-the-machine'))
+                break
         if wreq is not None and r[0] == 'ok':
             names = wrapper_names(wsteps)
             pending.append(('c11wrap', wreq, {'names': names, 'kinds': [attr_kind(run.objs[op[1]], n) for n in names], 'op': op}))
